@@ -5,6 +5,7 @@ import (
 	"bytes"
 	"errors"
 	"fmt"
+	"github.com/golang/snappy"
 	"io"
 	"os"
 	"reflect"
@@ -314,8 +315,59 @@ func addFileCase(r *Run, gf *genFileT, file []byte, cbFail int, res fileRes, des
 			schemaTerm = cApp("Some", coqSchema(s))
 		}
 	}
-	table, _ := decompTable(file)
+	table, codec := decompTable(file)
+	if codec == "snappy" {
+		// the model does the framing, the length guard and the CRC-32 itself (Model/Compress.v):
+		// it is given only what golang/snappy says about each block's body
+		return r.Add(cApp("KFileSn", schemaTerm, gf.g.Coq(), cBytes(file), snappyRawTable(file), cZ(int64(cbFail)), cZ(int64(res.N)), res.coqClass()), desc, key)
+	}
 	return r.Add(cApp("KFile", schemaTerm, gf.g.Coq(), cBytes(file), table, cZ(int64(cbFail)), cZ(int64(res.N)), res.coqClass()), desc, key)
+}
+
+// snappyRawTable: for every stored block the strict framing finds in a snappy file, the body
+// (the block without its four checksum bytes) with snappy.DecodedLen and snappy.Decode of it.
+// Decode is not attempted on a body that declares more than 64 times its size (the library
+// refuses those before decoding; the harness must not allocate gigabytes either).
+func snappyRawTable(file []byte) string {
+	var entries []string
+	ct, err := parseHeaderOnly(file)
+	if err != nil {
+		return "[]"
+	}
+	rest := file[ct.HeaderLen:]
+	seen := map[string]bool{}
+	for len(rest) > 0 {
+		_, r1, err := readVarint(rest)
+		if err != nil {
+			break
+		}
+		sz, r2, err := readVarint(r1)
+		if err != nil || sz < 0 || int64(len(r2)) < sz {
+			break
+		}
+		raw := r2[:sz]
+		if len(raw) >= 4 {
+			body := raw[:len(raw)-4]
+			if !seen[string(body)] {
+				seen[string(body)] = true
+				ln, dec := "None", "None"
+				if n, err := snappy.DecodedLen(body); err == nil {
+					ln = cApp("Some", cZ(int64(n)))
+					if n <= 64*len(raw)+1024 {
+						if out, err := snappy.Decode(nil, body); err == nil {
+							dec = cApp("Some", cBytes(out))
+						}
+					}
+				}
+				entries = append(entries, cPair(cBytes(body), cPair(ln, dec)))
+			}
+		}
+		if int64(len(r2)) < sz+16 {
+			break
+		}
+		rest = r2[sz+16:]
+	}
+	return cList(entries)
 }
 
 func checkValues(r *Run, id int, gf *genFileT, res fileRes, n int, desc map[string]any, key string) {
@@ -408,6 +460,7 @@ func c07FieldlessRecords(r *Run) {
 
 func runC07(r *Run) {
 	c07FieldlessRecords(r)
+	c07Crc(r)
 	nfiles := r.N(60, 500)
 	for i := 0; i < nfiles; i++ {
 		gf := genFile(r, 8)
